@@ -154,22 +154,35 @@ def oracle_model_geometry(geom, sel, links, canary=None):
     return atoms
 
 
-def h_oniom(env, geom, frags, as_string=False, canary=None):
-    """frags: list of dict(low, high, olow, ohigh, sel, links, charge, spin); frags[0] is the system (sel None, low only)"""
+def h_oniom(env, geom, frags, as_string=False, canary=None, share=False):
+    """frags: list of dict(low, high, olow, ohigh, sel, links, charge, spin); frags[0] is the system (sel None, low only).
+    share=True: equal option dictionaries are handed in as ONE dict object (a user writing opts = {...} once and passing it to both
+    levels / several fragments); the caller's dictionaries are unchanged afterwards"""
     from tangelo.problem_decomposition import ONIOMProblemDecomposition
     from tangelo.problem_decomposition.oniom import Fragment, Link
     table = EnergyTable(env)
+    pool = {}
+
+    def opt(d):
+        if not d:
+            return None
+        if not share:
+            return dict(d)
+        return pool.setdefault(repr(sorted(d.items(), key=str)), dict(d))
     with stubbed(table):
         fobjs = []
         for f in frags:
             links = [Link(st, lv, fac, sp) if fac is not None else Link(st, lv, species=sp) for (st, lv, fac, sp) in (f.get("links") or [])]
-            fobjs.append(Fragment(solver_low=f.get("low"), options_low=(dict(f["olow"]) if f.get("olow") else None),
-                                  solver_high=f.get("high"), options_high=(dict(f["ohigh"]) if f.get("ohigh") else None),
+            fobjs.append(Fragment(solver_low=f.get("low"), options_low=opt(f.get("olow")),
+                                  solver_high=f.get("high"), options_high=opt(f.get("ohigh")),
                                   selected_atoms=(list(f["sel"]) if isinstance(f.get("sel"), (list, tuple)) else f.get("sel")),
                                   charge=f.get("charge", 0), spin=f.get("spin", 0), broken_links=(links or None)))
         g_in = geom_to_string(geom) if as_string else [(el, tuple(xyz)) for el, xyz in geom]
         oniom = ONIOMProblemDecomposition({"geometry": g_in, "fragments": fobjs})
+        snap = {k: dict(v) for k, v in pool.items()}
         total = oniom.simulate()
+        for k, v in pool.items():
+            env.check_same(v, snap[k], "the option dictionary handed in by the caller is unchanged after simulate()")
 
         # ---- oracle
         def E(method, opts, f, atoms):
@@ -605,6 +618,13 @@ def shapes(tier, seed):
             out.append(Shape(f"oniom/whole-perm4/{''.join(map(str, perm))}", h_oniom,
                              dict(geom=g4, frags=[sysHF, dict(low="HF", high="FCI", sel=list(perm), links=[])]), modules=(HC, ONIOM)))
     out.append(Shape("oniom/rejects", h_oniom_rejects, {}, modules=(HC, ONIOM)))
+    b631 = {"basis": "6-31g"}
+    shared = {"same-level": [dict(low="HF", olow=b631, sel=None), dict(low="CCSD", high="CCSD", olow=b631, ohigh=b631, sel=[0, 1, 2], links=[(0, 3, None, "H")])],
+              "whole-system": [dict(low="HF", olow=b631, sel=None), dict(low="HF", high="CCSD", olow=b631, ohigh=b631, sel=None, links=[])],
+              "two-models": [dict(low="HF", olow=b631, sel=None), dict(low="HF", high="FCI", olow=b631, ohigh={"basis": "6-31g", "frozen_orbitals": 1}, sel=[3, 4, 5], links=[(3, 0, 0.7, "H")]),
+                             dict(low="HF", high="CCSD", olow=b631, ohigh=b631, sel=[6], links=[(6, 0, None, "H")])]}
+    for nm_, frags_ in shared.items():
+        out.append(Shape(f"oniom/shared-options/{nm_}", h_oniom, dict(geom=GEOM7, frags=frags_, share=True), modules=(HC, ONIOM)))
     out.append(Shape("canary/oniom/sign", h_oniom, dict(geom=GEOM7, frags=core[0][1], canary="sign"), modules=(HC, ONIOM), canary=True))
     out.append(Shape("canary/oniom/selection", h_oniom, dict(geom=GEOM7, frags=[sysHF, dict(low="HF", high="CCSD", sel=3, links=[])], canary="selection"),
                      modules=(HC, ONIOM), canary=True))
